@@ -180,6 +180,37 @@ func init() {
 	m["bytes.IndexByte"] = m["internal/bytealg.IndexByte"]
 	m["internal/stringslite.IndexByte"] = m["internal/bytealg.IndexByte"]
 
+	// strings.IndexAny with a constant ASCII character set: first byte position whose byte is in the set
+	// (exact: ASCII bytes never occur inside multi-byte UTF-8 sequences).  Other sets: real code.
+	m["strings.IndexAny"] = func(fr *frame, a []Value) Value {
+		w := fr.w
+		T := w.T
+		chars, ok := concreteStr(a[1].(Str))
+		ascii := ok
+		for i := 0; ok && i < len(chars); i++ {
+			if chars[i] >= 0x80 {
+				ascii = false
+			}
+		}
+		if !ascii {
+			return w.callSSAReal(fr, fr.fn, a)
+		}
+		s := a[0].(Str)
+		r := T.Const(64, ^uint64(0))
+		for i := len(s.B) - 1; i >= 0; i-- {
+			in := T.False
+			for j := 0; j < len(chars); j++ {
+				in = T.Or(in, T.Eq(s.B[i], T.Const(8, uint64(chars[j]))))
+			}
+			r = T.Ite(in, T.Const(64, uint64(i)), r)
+		}
+		return r
+	}
+	ident := func(fr *frame, a []Value) Value { return a[0] }
+	m["internal/stringslite.Clone"] = ident
+	m["strings.Clone"] = ident
+	m["strconv.cloneString"] = ident
+
 	// ---- fmt / log: opaque ----
 	m["fmt.Errorf"] = func(fr *frame, a []Value) Value {
 		w := fr.w
